@@ -2662,6 +2662,9 @@ impl Connection {
 
                             // Discard already-queued frames
                             self.spaces[SpaceId::Data].pending = Retransmits::default();
+                            // Early datagrams still queued are early data too
+                            self.datagrams.outgoing.clear();
+                            self.datagrams.outgoing_total = 0;
 
                             // Discard 0-RTT packets
                             let sent_packets =
